@@ -212,6 +212,12 @@ pub fn build_world(rng: &mut Rng) -> (World, Pubkey, Vec<BankSpec>, Pubkey) {
                 };
             }
         }
+        // EMODE_ON is maintained by the program: set exactly when at least one entry is configured
+        if b.emode.emode_config.entries.iter().any(|e| e.collateral_bank_emode_tag != 0) {
+            b.emode.flags |= marginfi_type_crate::types::EMODE_ON;
+        } else {
+            b.emode.flags &= !marginfi_type_crate::types::EMODE_ON;
+        }
         w.set_bank(&h.bank, &b);
         specs.push(BankSpec { key: h.bank, pyth, oracle_meta });
     }
@@ -347,6 +353,17 @@ pub fn gen(rng: &mut Rng, n: usize, out: &mut Vec<String>) {
             let o = pulse_line(&w, &acct, &specs);
             out.push(format!("risk.pulse {} => {}", line, o));
             produced += 1;
+            if o.starts_with("ok") && rng.chance(1, 3) {
+                if let Some(l) = start_line(&w, &acct, &specs, group, &line, rng) {
+                    out.push(l);
+                    produced += 1;
+                }
+            }
+            if o.starts_with("ok") && rng.chance(1, 2) {
+                let n0 = out.len();
+                cond_lines(&w, &acct, &specs, &line, &o, rng, out);
+                produced += out.len() - n0;
+            }
             if o.starts_with("ok") && rng.chance(1, 2) {
                 if let Some(l) = end_line(&w, &acct, &specs, group, &line, &o, rng) {
                     out.push(l);
@@ -435,4 +452,96 @@ fn end_line(w0: &World, acct: &Pubkey, specs: &[BankSpec], group: Pubkey, portfo
     } else {
         format!("risk.endliq {} {} {} {} {} {} => {}", pre_am, pre_lm, pre_ae, pre_le, fee_bits, portfolio, verdict)
     })
+}
+
+
+/// `risk.preliq <k> <portfolio>` and `risk.postliq <k> <pre health> <portfolio>`: the REAL
+/// `RiskEngine::check_pre_liquidation_condition_and_get_account_health(Some(bank k), ..)` and
+/// `check_post_liquidation_condition_and_get_account_health(bank k, pre)` called directly on the store's bytes, `k` = index of
+/// one of the account's active positions, `pre` chosen AT, one bit above and one bit below the current maintenance health
+/// (the strictness of "health must improve") and elsewhere.
+fn cond_lines(w: &World, acct: &Pubkey, specs: &[BankSpec], portfolio: &str, pulse: &str, rng: &mut Rng, out: &mut Vec<String>) {
+    use marginfi::state::marginfi_account::RiskEngine;
+    let cur: Vec<i128> = pulse.split_whitespace().skip(1).take(6).map(|x| x.parse().unwrap()).collect();
+    let health = cur[2].saturating_sub(cur[3]);
+    let a = w.marginfi_account(acct);
+    let active: Vec<Pubkey> = a.lending_account.balances.iter().filter(|b| b.is_active()).map(|b| b.bank_pk).collect();
+    if active.is_empty() { return; }
+    // mostly a position that IS a debt (the only kind a liquidation can name), sometimes any
+    let debts: Vec<usize> = a.lending_account.balances.iter().filter(|b| b.is_active()).enumerate()
+        .filter(|(_, b)| bits(b.liability_shares) >= ONE && bits(b.asset_shares) < ONE).map(|(i, _)| i).collect();
+    let k = if !debts.is_empty() && rng.chance(5, 6) { *rng.pick(&debts) } else { rng.below(active.len() as u64) as usize };
+    let bank_pk = active[k];
+    let keys: Vec<Pubkey> = risk_metas(w, acct, specs).iter().map(|m| m.pubkey).collect();
+    let show = |r: Option<anchor_lang::Result<I80F48>>| -> Option<String> {
+        match r {
+            None => Some("panic".to_string()),
+            Some(Ok(v)) => Some(format!("ok {}", v.to_bits())),
+            Some(Err(anchor_lang::error::Error::AnchorError(e))) => Some(format!("err {}", e.error_code_number)),
+            Some(Err(_)) => None,
+        }
+    };
+    let r = w.with_infos(&keys, |ais| -> anchor_lang::Result<I80F48> {
+        let e = RiskEngine::new(&a, ais)?;
+        e.check_pre_liquidation_condition_and_get_account_health(Some(&bank_pk), &mut None, false).map(|x| x.0)
+    });
+    if let Some(sr) = show(r) {
+        out.push(format!("risk.preliq {} {} => {}", k, portfolio, sr));
+    }
+    let pre: i128 = match rng.below(6) {
+        0 => health,
+        1 => health.saturating_sub(1),
+        2 => health.saturating_add(1),
+        3 => health.saturating_sub(rng.below(1u64 << 50) as i128),
+        4 => health.saturating_add(rng.below(1u64 << 50) as i128),
+        _ => -(rng.below(1u64 << 60) as i128),
+    };
+    let r = w.with_infos(&keys, |ais| -> anchor_lang::Result<I80F48> {
+        let e = RiskEngine::new(&a, ais)?;
+        e.check_post_liquidation_condition_and_get_account_health(&bank_pk, I80F48::from_bits(pre))
+    });
+    if let Some(sr) = show(r) {
+        out.push(format!("risk.postliq {} {} {} => {}", k, pre, portfolio, sr));
+    }
+}
+
+
+/// `risk.start <ignore healthy> <portfolio>  =>  ok <snapshot x4> | err`: the REAL start_liquidation / start_deleverage in a
+/// real two-instruction transaction [start, matching end] (the start's own transaction-shape check demands the end; an end
+/// right after the start re-evaluates the same portfolio and cannot refuse what the start accepted); the snapshot is read
+/// from the liquidation record afterwards.
+fn start_line(w0: &World, acct: &Pubkey, specs: &[BankSpec], group: Pubkey, portfolio: &str, rng: &mut Rng) -> Option<String> {
+    let mut w = w0.clone();
+    let delev = rng.chance(1, 3);
+    let receiver = w.add_wallet(1_000_000_000);
+    let rec_key = w.add_liquidation_record(*acct, receiver);
+    let mut a = w.marginfi_account(acct);
+    a.liquidation_record = rec_key;
+    w.set_marginfi_account(acct, &a);
+    let (fs_key, _) = crate::world::fixtures::fee_state_pda();
+    let mut fs = w.fee_state(&fs_key);
+    fs.liquidation_flat_sol_fee = 0;
+    let fee_wallet = fs.global_fee_wallet;
+    w.set_fee_state(&fs_key, &fs);
+    let metas = risk_metas(&w, acct, specs);
+    let ixs = if delev {
+        let risk_admin = w.add_wallet(1_000_000_000);
+        let gr = w.group(&group);
+        w.set_group_admins(&group, gr.emode_admin, gr.delegate_curve_admin, gr.delegate_limit_admin, gr.delegate_emissions_admin, risk_admin, gr.metadata_admin);
+        vec![ix::start_deleverage(group, *acct, risk_admin, metas.clone()), ix::end_deleverage(group, *acct, risk_admin, metas)]
+    } else {
+        vec![ix::start_liquidation(*acct, receiver, metas.clone()), ix::end_liquidation(*acct, receiver, fee_wallet, metas)]
+    };
+    let verdict = match w.exec_tx(&ixs) {
+        Ok(()) => {
+            let c = w.liquidation_record(&rec_key).cache;
+            format!("ok {} {} {} {}", bits(c.asset_value_maint), bits(c.liability_value_maint), bits(c.asset_value_equity), bits(c.liability_value_equity))
+        }
+        Err((0, crate::world::ExecErr::Custom(c))) => format!("err {}", c),
+        Err((0, crate::world::ExecErr::Panic)) => "panic".to_string(),
+        // the end refused what the start accepted: reported as its own outcome (the model says "ok")
+        Err((1, e)) => format!("end-refused {}", e),
+        Err(_) => return None,
+    };
+    Some(format!("risk.start {} {} => {}", delev as u8, portfolio, verdict))
 }
